@@ -49,12 +49,3 @@ Qed.
 From GR Require Model.FsmModel.
 Lemma gen_fsm_consts_agree : GenLoop.max_slots = N.of_nat FsmModel.MAX_SLOTS /\ GenLoop.max_rules = N.of_nat FsmModel.MAX_RULES.
 Proof. split; reflexivity. Qed.
-
-(* the association fields of Slot and CharInfo are at least 32 bits wide and read through int accessors: an index below 2^31 -- any
-   character or slot of a segment the API can describe -- is stored and read back unchanged (the models keep unbounded numbers) *)
-Lemma gen_assoc_index_roundtrip : forall i : N, (i < 2 ^ 31)%N -> (i mod 2 ^ GenLoop.assoc_index_bits = i)%N /\ (31 < GenLoop.assoc_index_bits)%N.
-Proof. intros i H. unfold GenLoop.assoc_index_bits. split; [apply N.mod_small; change (2 ^ 32)%N with (2 * 2 ^ 31)%N; lia | lia]. Qed.
-
-(* the slot advance the API reports with an unhinted font is the design-unit advance times the font's scale, with or without a face *)
-Lemma gen_slot_advance_scales : forall res scale face_given, GenLoop.slot_advance_unhinted res scale face_given = (scale * GenLoop.slot_advance_nofont res)%Z.
-Proof. intros res scale [|]; unfold GenLoop.slot_advance_unhinted, GenLoop.slot_advance_nofont; apply Z.mul_comm. Qed.
